@@ -139,9 +139,72 @@ fn run_op(tx: &mut Transaction, op: &Value) -> Value {
                 _ => json!({"ok": tx.match_input(&c)}),
             }
         }
-        "bsm_magic_digest" => {
-            // not a transaction op: the double-SHA256 digest BSM signs is not exposed; handled by the caller
-            json!({"err": "unsupported"})
+        // ---- operations that do not use the transaction -------------------------------------------------
+        "compact_roundtrip" => {
+            // parse a compact signature, re-serialise it (optionally with explicit recovery info)
+            match Signature::from_compact_bytes(&hx(&op["bytes"])) {
+                Ok(sig) => {
+                    let ri = op.get("ri").and_then(|x| x.as_array()).map(|a| RecoveryInfo::new(a[0].as_bool().unwrap(), a[1].as_bool().unwrap(), a[2].as_bool().unwrap()));
+                    json!({"ok": hex::encode(sig.to_compact_bytes(ri)), "r": hex::encode(sig.r()), "s": hex::encode(sig.s())})
+                }
+                Err(e) => json!({ "err": e.to_string() }),
+            }
+        }
+        "der_roundtrip" => match Signature::from_der(&hx(&op["bytes"])) {
+            Ok(sig) => json!({ "ok": hex::encode(sig.to_der_bytes()) }),
+            Err(e) => json!({ "err": e.to_string() }),
+        },
+        "sighash_sig_roundtrip" => match SighashSignature::from_bytes(&hx(&op["bytes"]), &[]) {
+            Ok(ss) => res_bytes(ss.to_bytes()),
+            Err(e) => json!({ "err": e.to_string() }),
+        },
+        "bsm_verify" => {
+            // sign `message` with the key, derive the key's P2PKH address under `prefix`, verify against it
+            let key = PrivateKey::from_bytes(&hx(&op["key"])).expect("key").compress_public_key(op["compressed"].as_bool().unwrap_or(true));
+            let msg = hx(&op["message"]);
+            let sig = BSM::sign_message(&key, &msg).expect("sign");
+            let pk = key.to_public_key().expect("pubkey");
+            let addr = P2PKHAddress::from_pubkey(&pk).expect("addr");
+            let p = op["prefix"].as_u64().unwrap() as u8;
+            let addr = addr.set_chain_params(&ChainParams::new(p, 0, 0, 0, 0, 0)).expect("chain params");
+            match BSM::verify_message(&msg, &sig, &addr) {
+                Ok(b) => json!({ "ok": b }),
+                Err(e) => json!({ "err": e.to_string() }),
+            }
+        }
+        "bsm_magic" => {
+            // the digest BSM signs must be SHA256d(varint(24) ++ magic ++ varint(len) ++ msg): a signature made by
+            // BSM::sign_message must verify against the caller-supplied preimage (computed by the reference encoder)
+            let key = PrivateKey::from_bytes(&hx(&op["key"])).expect("key");
+            let msg = hx(&op["message"]);
+            let sig = BSM::sign_message(&key, &msg).expect("sign");
+            let pk = key.to_public_key().expect("pubkey");
+            match ECDSA::verify_digest(&hx(&op["preimage"]), &pk, &sig, SigningHash::Sha256d) {
+                Ok(b) => json!({ "ok": b }),
+                Err(_) => json!({ "ok": false }),
+            }
+        }
+        "unlock_own_key" => {
+            // an address under any prefix must accept its own public key when an unlocking script is built
+            let key = PrivateKey::from_bytes(&hx(&op["key"])).expect("key");
+            let pk = key.to_public_key().expect("pubkey");
+            let p = op["prefix"].as_u64().unwrap() as u8;
+            let addr = P2PKHAddress::from_pubkey(&pk).expect("addr").set_chain_params(&ChainParams::new(p, 0, 0, 0, 0, 0)).expect("cp");
+            let sig = key.sign_message(b"x").expect("sig");
+            let ss = SighashSignature::new(&sig, SigHash::InputsOutputs, &[]);
+            match addr.get_unlocking_script(&pk, &ss) {
+                Ok(_) => json!({ "ok": true }),
+                Err(e) => json!({ "err": e.to_string() }),
+            }
+        }
+        "address_fields" => {
+            // (prefix, hash, checksum consistency) of from_pubkey_hash + set_chain_params, observed through the public API
+            let a = P2PKHAddress::from_pubkey_hash(&hx(&op["hash"])).expect("addr");
+            let p = op["prefix"].as_u64().unwrap() as u8;
+            let b = a.set_chain_params(&ChainParams::new(p, 0, 0, 0, 0, 0)).expect("cp");
+            let s = b.to_string().expect("string");
+            let back = P2PKHAddress::from_string(&s);
+            json!({"ok": {"string": s, "hash": hex::encode(b.to_pubkey_hash()), "reparsed_equal": back.map(|x| x == b).unwrap_or(false)}})
         }
         other => json!({ "err": format!("unknown op {}", other) }),
     }
